@@ -63,3 +63,10 @@ impl TimerTable {
         self.data[timer as usize].is_some_and(|x| x <= after)
     }
 }
+
+#[cfg(feature = "__verif-hooks")]
+#[allow(missing_docs, unreachable_pub, dead_code, unused_imports, unused_qualifications)]
+pub mod verif {
+    use super::*;
+    include!(concat!(env!("QUINN_VERIF_HOOKS"), "/proto/connection/timer.rs"));
+}
